@@ -11,7 +11,7 @@ from props.c01 import invalid_from
 
 TITLE = "RandomGen returns only valid sequences"
 LEVEL = "proof"
-DOMAINS = ['Design', 'Random']
+DOMAINS = ['Random', 'Design']
 
 
 def run(ctx, res):
@@ -31,11 +31,13 @@ def run(ctx, res):
                                "RandomGen returned an invalid sequence", {"sequence": rr["keys"][i], "names": r["names"]})
     try:
         import random_corr
-        bad = random_corr.random_correspondence(ctx, res, [r["program"] for r in batch if r["build"] == "ok"][:(100 if ctx.quick else 1000)])
+        random_corr.random_correspondence(ctx, res, [r["program"] for r in batch if r["build"] == "ok"][:(100 if ctx.quick else 1000)])
+        bad = sum(d["mismatches"] for name, d in res.corr.items() if name.startswith("L8"))
         if bad and not found:
             from common import Violation
-            res.violations.append(Violation("corr:L8", "enumerator model and UCSolutionEnumerator disagree on %d programs" % len(bad),
-                                            {"layer": "L8", "first": bad[0]}, failing_input=False))
+            res.violations.append(Violation("corr:L8", "enumerator model Random/Enum.v and UCSolutionEnumerator disagree on %d observations" % bad,
+                                            {"layer": "L8", "theorems": ["C04_accept_sound_partial"],
+                                             "layers": {k: v for k, v in res.corr.items() if k.startswith("L8")}}, failing_input=False))
     except ImportError:
         res.notes.append("random correspondence module not present")
 
